@@ -68,6 +68,8 @@ pub fn new_app() -> App {
             let mut coins: Vec<Coin> = DENOMS.iter().map(|d| coin(RICH, *d)).collect();
             coins.push(coin(RICH, FACTORY_DENOM));
             coins.push(coin(RICH, LOOKALIKE_DENOM));
+            // the ordinary denoms in upper case: different bank denoms that merely look alike
+            for d in DENOMS.iter() { coins.push(coin(RICH, d.to_uppercase())); }
             coins.sort_by(|a, b| a.denom.cmp(&b.denom));
             router.bank.init_balance(storage, &Addr::unchecked(a), coins).unwrap();
         }
@@ -145,10 +147,16 @@ pub fn deploy_pair_ext(kinds: [bool; 2], decimals: [u8; 2], fees: PoolFee, pair_
     }
     let assets = [infos[0].clone(), infos[1].clone()];
     let foreign = deploy_cw20(&mut app, cw20_code, "TOKX", 6);
+    // pairs told 8 decimals for their second asset are INSTANTIATED with their cw20 addresses spelled in upper case (the form a client
+    // may send; the chain treats addresses case-insensitively and the contract stores the normalised form); every later message uses
+    // the normalised addresses. A deterministic function of the case, so replays rebuild the same pair.
+    let at_instantiate: [AssetInfo; 2] = if decimals[1] == 8 {
+        [0, 1].map(|i| match &assets[i] { AssetInfo::Token { contract_addr } => AssetInfo::Token { contract_addr: contract_addr.to_uppercase() }, a => a.clone() })
+    } else { assets.clone() };
     let pair = app.instantiate_contract(
         pair_code, Addr::unchecked(OWNER),
         &pair::InstantiateMsg {
-            asset_infos: assets.clone(), token_code_id: token_code, asset_decimals: decimals,
+            asset_infos: at_instantiate, token_code_id: token_code, asset_decimals: decimals,
             pool_fees: fees, fee_collector_addr: COLLECTOR.to_string(), pair_type, token_factory_lp: false,
         },
         &[], "pair", None,
